@@ -350,7 +350,7 @@ impl<const N: usize> ScenN<N> {
                                 Err(err) => parts.push(format!("{},{},err {}", ts, if del { 1 } else { 0 }, err_kind(&err))),
                             }
                         }
-                        format!("list {}", parts.join(";"))
+                        if parts.is_empty() { "list".to_string() } else { format!("list {}", parts.join(";")) }
                     }
                 }
             }
@@ -367,6 +367,22 @@ impl<const N: usize> ScenN<N> {
                 Err(e) => format!("err {}", err_kind(&e)),
             },
             "settle" => Self::settle(st).await,
+            "states" => {
+                let states = st.verif_blob_states().await;
+                let mut s = String::from("#states");
+                for b in states {
+                    s.push_str(&format!(" {}:{}:{}", b.id, if b.active { "a" } else { "c" }, b.records));
+                }
+                s
+            }
+            "res" => {
+                let states = st.verif_blob_states().await;
+                let mut s = String::from("#res");
+                for b in states {
+                    s.push_str(&format!(" {}:{}", b.id, if b.index_on_disk { "d" } else { "m" }));
+                }
+                s
+            }
             "counts" => {
                 let rc = st.records_count().await;
                 let det = st.records_count_detailed().await;
